@@ -12,7 +12,7 @@ structure Inv (s : St) : Prop where
 theorem inv_init : Inv St.init :=
   ⟨by simp [St.init], by simp [St.init], by simp [St.init], by simp [St.init]⟩
 
-theorem inv_step (s : St) (h : Inv s) (st : Step) : Inv (step s st) := by
+theorem inv_step (s : St) (h : Inv s) (st : Step) (hl : ∀ i, st ≠ .readLive i) : Inv (step s st) := by
   obtain ⟨h1, h2, h3, h4⟩ := h
   cases st with
   | load v ok =>
@@ -75,6 +75,7 @@ theorem inv_step (s : St) (h : Inv s) (st : Step) : Inv (step s st) := by
             · subst hw; exact hv
           · rename_i hj; simp [hj] at hw; exact h4 j w hw
     · exact ⟨h1, h2, h3, h4⟩
+  | readLive i => exact absurd rfl (hl i)
   | finish i =>
     simp only [step]
     split
@@ -91,10 +92,13 @@ theorem inv_step (s : St) (h : Inv s) (st : Step) : Inv (step s st) := by
         · rename_i hj; simp [hj] at hw; exact h4 j w hw
     · exact ⟨h1, h2, h3, h4⟩
 
-theorem inv_run (steps : List Step) : ∀ s, Inv s → Inv (runSteps s steps) := by
+theorem inv_run (steps : List Step) (hl : ∀ i, Step.readLive i ∉ steps) : ∀ s, Inv s → Inv (runSteps s steps) := by
   induction steps with
   | nil => intro s h; exact h
-  | cons st rest ih => intro s h; exact ih _ (inv_step s h st)
+  | cons st rest ih =>
+    intro s h
+    exact ih (fun i hi => hl i (List.mem_cons_of_mem _ hi)) _
+      (inv_step s h st fun i e => hl i (by simp [e]))
 
 /-- a snapshot, once taken, is never changed by any later step of anybody -/
 theorem snap_stable_step (s : St) (st : Step) (i v : Nat) (h : (s.reqs i).snap = some v) :
@@ -175,6 +179,7 @@ theorem valid_step (s : St) (st : Step) (v : Nat) (h : v ∈ (step s st).valid) 
   | swap w => simp only [step] at h; split at h <;> exact Or.inl h
   | snap i => simp only [step] at h; split at h <;> exact Or.inl h
   | read i => simp only [step] at h; (repeat' split at h) <;> exact Or.inl h
+  | readLive i => simp only [step] at h; (repeat' split at h) <;> exact Or.inl h
   | finish i => simp only [step] at h; split at h <;> exact Or.inl h
 
 theorem valid_run (steps : List Step) : ∀ (s : St) (v : Nat), v ∈ (runSteps s steps).valid →
